@@ -177,6 +177,16 @@ func TestVerifC11E2E(t *testing.T) {
 			p.batchCPU = p.reqBatch
 			pods[i] = p
 		}
+		// ---- how the usage of each pod is (not) present in the metric cache (verif_c11_metric_test.go)
+		collectInterval := maframework.NewDefaultConfig().CollectResUsedInterval
+		qWindow := int64(2 * collectInterval / time.Millisecond)
+		realMC := r.Chance(1, 3)
+		for _, p := range pods {
+			if p.hasMetric && r.Chance(1, 4) {
+				p.hasMetric = false // a pod the agent has no fresh usage sample of
+			}
+			c11GenSeries(r, p, realMC, qWindow)
+		}
 		byUID := map[string]*c11Pod{}
 		var real []*corev1.Pod
 		for _, p := range pods {
@@ -336,22 +346,66 @@ func TestVerifC11E2E(t *testing.T) {
 		si.EXPECT().GetAllPods().Return(testutil.GetPodMetas(real)).AnyTimes()
 		si.EXPECT().GetNode().Return(node).AnyTimes()
 		si.EXPECT().GetNodeSLO().Return(nodeSLO).AnyTimes()
+		var theCache metriccache.MetricCache
+		var pin *c11PinCache
+		if realMC {
+			// the REAL metric cache (TSDB) and the real AggregateResult behind a pinned clock
+			metriccache.DefaultAggregateResultFactory = c11RealResultFactory
+			var extra []c11ExtraSeries
+			// node cpu usage is an AVG query over max(collect interval, CPUEvictTimeWindowSeconds) >= 1 s: one point inside
+			// the shortest window, optionally a stale one (older than the longest window, 30 s) with another value
+			if used != nil {
+				x := c11ExtraSeries{res: c11NodeMetric, ages: []int64{int64(r.Intn(1001))}, vals: []float64{c11NodeMetricValue(*used)}}
+				if r.Chance(1, 3) {
+					x.ages = append(x.ages, 30001+int64(r.Range(0, 100000)))
+					x.vals = append(x.vals, c11NodeMetricValue(*used+125*int64(r.Range(1, 8))))
+				}
+				extra = append(extra, x)
+			} else if r.Chance(1, 2) {
+				extra = append(extra, c11ExtraSeries{res: c11NodeMetric, ages: []int64{30001 + int64(r.Range(0, 100000))}, vals: []float64{c11NodeMetricValue(capacity)}}) // stale only
+			}
+			// node BE series of the satisfaction target: cnt equal points 10 ms apart (inside every query window);
+			// an EMPTY series reads like a failed query (value 0, count 0)
+			for i, alloc := range []metriccache.MetricPropertyValue{metriccache.BEResourceAllocationUsage, metriccache.BEResourceAllocationRequest, metriccache.BEResourceAllocationRealLimit} {
+				bem[i].cur = bem[i].avg
+				bem[i].err = bem[i].cnt == 0
+				x := c11ExtraSeries{res: metriccache.NodeBEMetric, props: metriccache.MetricPropertiesFunc.NodeBE(string(metriccache.BEResourceCPU), string(alloc))}
+				for k := int64(0); k < bem[i].cnt; k++ {
+					x.ages = append(x.ages, 10*k)
+					x.vals = append(x.vals, float64(bem[i].avg))
+				}
+				extra = append(extra, x)
+			}
+			pin = c11RealCache(t, pods, extra)
+			theCache = pin
+		}
 		mc := mock_metriccache.NewMockMetricCache(ctl)
+		if !realMC {
+			theCache = mc
+		}
 		rf := mock_metriccache.NewMockAggregateResultFactory(ctl)
-		metriccache.DefaultAggregateResultFactory = rf
+		if !realMC {
+			metriccache.DefaultAggregateResultFactory = rf
+		}
 		q := mock_metriccache.NewMockQuerier(ctl)
 		mc.EXPECT().Querier(gomock.Any(), gomock.Any()).Return(q, nil).AnyTimes()
 		q.EXPECT().Close().AnyTimes()
 		for _, p := range pods {
 			res := mock_metriccache.NewMockAggregateResult(ctl)
-			res.EXPECT().Value(gomock.Any()).Return(c11MetricValue(p.milli), nil).AnyTimes()
-			res.EXPECT().Count().Return(1).AnyTimes()
+			if !p.qerr && len(p.series) == 0 {
+				// EMPTY result: the query succeeds and holds no point (what the real AggregateResult then says)
+				res.EXPECT().Value(gomock.Any()).Return(float64(0), fmt.Errorf("metric input is empty")).AnyTimes()
+				res.EXPECT().Count().Return(0).AnyTimes()
+			} else {
+				res.EXPECT().Value(gomock.Any()).Return(c11MetricValue(p.milli), nil).AnyTimes()
+				res.EXPECT().Count().Return(1).AnyTimes()
+			}
 			meta, err := c11PodMetric.BuildQueryMeta(metriccache.MetricPropertiesFunc.Pod(fmt.Sprintf("u%d", p.id)))
 			if err != nil {
 				t.Fatal(err)
 			}
 			rf.EXPECT().New(meta).Return(res).AnyTimes()
-			if p.hasMetric {
+			if !p.qerr {
 				q.EXPECT().QueryAndClose(meta, gomock.Any(), gomock.Any()).SetArg(2, *res).Return(nil).AnyTimes()
 			} else {
 				q.EXPECT().QueryAndClose(meta, gomock.Any(), gomock.Any()).Return(fmt.Errorf("no metric")).AnyTimes()
@@ -389,7 +443,7 @@ func TestVerifC11E2E(t *testing.T) {
 		for f, ft := range c11eFeatures {
 			restore = append(restore, utilfeature.SetFeatureGateDuringTest(t, features.DefaultMutableKoordletFeatureGate, ft, gate[f]))
 		}
-		opt := &framework.Options{StatesInformer: si, MetricCache: mc, Config: framework.NewDefaultConfig(), MetricAdvisorConfig: maframework.NewDefaultConfig()}
+		opt := &framework.Options{StatesInformer: si, MetricCache: theCache, Config: framework.NewDefaultConfig(), MetricAdvisorConfig: maframework.NewDefaultConfig()}
 		ev := New(opt).(*cpuEvictor)
 		ex := &c11eExec{isev: isev, script: script, byUID: byUID}
 		ev.evictExecutor = ex
@@ -413,8 +467,12 @@ func TestVerifC11E2E(t *testing.T) {
 			}
 			h.Op("rawpod %d %d %d %d %d %d %d %d %d %s %s %d %d %d %d %d %d %d %d %s", p.id, p.name, p.qos, kube, p.phase,
 				vB(p.hasSpec), p.spec, p.clsLabel, el, numTok(p.epKind, p.epNum), numTok(p.lpKind, p.lpNum), p.polTop,
-				vB(p.hasMetric), p.milli, p.reqNative, p.reqMid, p.reqBatch, p.batchCPU, len(p.polElems), vIntsI(p.polElems))
+				0, 0 /* hasMetric / used: defined by the pod's `metric` line below */, p.reqNative, p.reqMid, p.reqBatch, p.batchCPU, len(p.polElems), vIntsI(p.polElems))
 		}
+		for _, p := range pods {
+			h.Op("%s", c11SeriesOp(p, qWindow))
+		}
+		c11ObserveLast(h, theCache, collectInterval, pods)
 		h.Op("isev %d %s", len(isevL), vInts(isevL))
 		sc := make([]int64, len(script))
 		for i, b := range script {
@@ -517,6 +575,12 @@ func TestVerifC11E2E(t *testing.T) {
 			rfn()
 		}
 		ctl.Finish()
+		if pin != nil {
+			for w := range pin.widths {
+				h.Tag(fmt.Sprintf("query-window-ms:%d", w))
+			}
+			pin.MetricCache.Close()
+		}
 
 		// ================= property oracle (from the generated attributes only) =================
 		realUse := func(p *c11Pod) int64 { // milli-cores the pod really uses, as far as a metric says
@@ -564,6 +628,11 @@ func TestVerifC11E2E(t *testing.T) {
 			lastFeat = c.feat
 			if !eligible(p, c.feat) {
 				h.Fail("C11:ineligible-victim", "e2e: pod %d (qos %d prio %d evictLbl %d policy %d/%v) evicted by %s", p.id, p.qos, p.effPrio(), p.evictLbl, p.polTop, p.polElems, c11eFeatures[c.feat])
+			}
+			if c.feat != 0 && !p.hasMetric {
+				// priority paths ("4. filter no metrics"): a pod the agent has no usage sample of inside the query
+				// window is no victim.  (The BE path keeps such a pod as a candidate with usage 0: unchanged tree.)
+				h.Fail("C11:victim-without-metric", "e2e: pod %d evicted by %s although the metric cache holds no usage sample of it in the last %d ms (%s)", p.id, c11eFeatures[c.feat], qWindow, p.mstate)
 			}
 			if okPods[p.id] {
 				h.Fail("C11:double-evict", "e2e: pod %d evicted again", p.id)
@@ -646,6 +715,13 @@ func TestVerifC11E2E(t *testing.T) {
 				nOn++
 			}
 		}
+		h.Tag(fmt.Sprintf("metric-fixture:real=%v", realMC))
+		for _, p := range pods {
+			h.Tag(fmt.Sprintf("metric-state:real=%v,%s", realMC, p.mstate))
+			if !p.hasMetric && p.phase <= 1 && !isev[p.id] && !p.prioAmbiguous() && ((on[2] && taskBuilt[2] && eligible(p, 2)) || (on[1] && taskBuilt[1] && eligible(p, 1))) {
+				h.Tag("eligible-prio-pod-without-sample-under-pressure") // what C11:victim-without-metric is about
+			}
+		}
 		h.Tag(fmt.Sprintf("tasks-run:%d", nOn))
 		h.Tag(fmt.Sprintf("calls:%d", len(ex.calls)))
 		h.Tag(fmt.Sprintf("usage-target:%v", usageTarget > 0))
@@ -657,7 +733,10 @@ func TestVerifC11E2E(t *testing.T) {
 		}
 		h.End()
 	}
-	h.Close("cpuEvict() end to end: 1-8 generated pods (shapes of selcpu, policy annotations naming the three real policies), node BE usage/request/" +
+	h.Close("every pod's usage is given as its SERIES in the metric cache (gomock fixture: query error / empty result / one point; 1 case in 3 on the REAL " +
+		"metric cache (TSDB) behind a pinned clock: no point / stale points only / a point after the query end / one / several / stale+fresh points, ages on both " +
+		"window boundaries); " +
+		"cpuEvict() end to end: 1-8 generated pods (shapes of selcpu, policy annotations naming the three real policies), node BE usage/request/" +
 		"real-limit metrics (avg and current, counts, query errors), satisfaction bounds valid and invalid, window, evictByAllocatable, three feature " +
 		"gates, NodeSLO strategy absent/disabled/with nil, negative, inverted thresholds, node capacity (rarely 0), node metric present/absent, " +
 		"allocatable absent/zero/positive per class, already-evicted set, scripted Evict failures; non-trivial = at least 2 Evict calls; distinct by op lines")
